@@ -52,7 +52,25 @@ func onceSlot(o *sync.Once) int {
 		}
 	}
 	if onceN == maxOnce {
-		return -1
+		// forget the ones that are through (a later Do on one of them goes through the real Once, which
+		// returns at once); only those being run must be remembered
+		k := 0
+		for i := 0; i < onceN; i++ {
+			if onceTab[i].state == 1 {
+				onceTab[k].o = onceTab[i].o
+				onceTab[k].state = 1
+				onceTab[k].owner = onceTab[i].owner
+				k++
+			}
+		}
+		for i := k; i < onceN; i++ {
+			onceTab[i].o = nil
+			onceTab[i].state = 0
+		}
+		onceN = k
+		if onceN == maxOnce {
+			return -1
+		}
 	}
 	onceTab[onceN].o = o
 	onceTab[onceN].state = 0
@@ -61,7 +79,21 @@ func onceSlot(o *sync.Once) int {
 }
 
 //go:norace
-func onceThrough(i int) { onceTab[i].state = 2 }
+func onceFind(o *sync.Once) int {
+	for i := 0; i < onceN; i++ {
+		if onceTab[i].o == o {
+			return i
+		}
+	}
+	return -1
+}
+
+//go:norace
+func onceThrough(o *sync.Once) {
+	if i := onceFind(o); i >= 0 {
+		onceTab[i].state = 2
+	}
+}
 
 // OnceDo is o.Do(f) with a scheduling point in front and cooperative waiting.
 //
@@ -72,17 +104,22 @@ func OnceDo(site int, o *sync.Once, f func()) {
 		o.Do(f)
 		return
 	}
+	for {
+		// (looked up afresh each time round: other callers may have compacted the table meanwhile)
+		i := onceFind(o)
+		if i < 0 || onceTab[i].state != 1 {
+			break
+		}
+		// (a caller waiting for itself - Do called from inside f - never gets out, like the real thing:
+		// the deadlock detector reports it)
+		OnceWaits++
+		YieldBlocked(site)
+	}
 	i := onceSlot(o)
 	if i < 0 {
 		OnceFallbacks++
 		o.Do(f)
 		return
-	}
-	for onceTab[i].state == 1 {
-		// (a caller waiting for itself - Do called from inside f - never gets out, like the real thing:
-		// the deadlock detector reports it)
-		OnceWaits++
-		YieldBlocked(site)
 	}
 	if onceTab[i].state == 2 {
 		o.Do(f)
@@ -92,6 +129,6 @@ func OnceDo(site int, o *sync.Once, f func()) {
 	onceTab[i].owner = cur
 	// through as soon as f has returned or panicked; nothing instrumented runs between that and the real
 	// Once recording it, so no other caller can get in between
-	defer onceThrough(i)
+	defer onceThrough(o)
 	o.Do(f)
 }
